@@ -21,7 +21,7 @@ pub static META: PropertyMeta = PropertyMeta {
 
 pub static PROP: Prop = Prop {
     meta: &META,
-    plan: |t| Plan { nshards: 16, budget_s: t.pick(55.0, 1000.0), mem_gib: 6 },
+    plan: |t| Plan { nshards: 16, budget_s: t.pick(55.0, 540.0), mem_gib: 6 },
     shard,
     replay,
     extra: crate::no_extra,
